@@ -16,7 +16,7 @@ import (
 	"cuelabs.dev/go/oci/ociregistry/ociauth"
 	"pgregory.net/rapid"
 
-	"verif/harness/internal/vt"
+	"verif/harness/vt"
 )
 
 func TestMain(m *testing.M) { vt.Main(m) }
